@@ -6,12 +6,20 @@ cd "$(dirname "$0")/.."
 mkdir -p build evidence replays
 ( cd lean && lake build ) 
 python3 - <<'PY'
-import sys
+import sys, threading
 sys.path.insert(0, '.')
 import vlib
-vlib.build_lib('dbg')
-import os
-if os.path.exists('harness/h_race.cpp') or os.path.exists('harness/h_life.cpp'):
-    vlib.build_lib('tsan')
+errs = []
+def build(kind):
+    try:
+        vlib.build_lib(kind)
+    except Exception as e:
+        errs.append((kind, str(e)[-2000:]))
+ts = [threading.Thread(target=build, args=(k,)) for k in ("dbg", "tsan", "opt")]
+[t.start() for t in ts]
+[t.join() for t in ts]
+if errs:
+    print(errs)
+    sys.exit(1)
 PY
 echo setup-ok
